@@ -122,8 +122,45 @@ def run_tagged(modname, tagged, seed, procs=None):
         return [_tagged_worker(a) for a in args]
     ctx = mp.get_context("forkserver")
     ctx.set_forkserver_preload(["numpy", "z3", "vlib", "symx.engine", "symx.npproxy"])
-    with ctx.Pool(procs, maxtasksperchild=8) as pool:
-        return list(pool.imap_unordered(_tagged_worker, args, chunksize=1))
+    # watchdog: if no case finishes for STALL seconds the pool is torn down and the unfinished cases are run once more in a fresh pool; a case that stalls twice is
+    # reported as a fatal (inconclusive) result instead of hanging the check
+    stall = float(os.environ.get("VERIF_STALL_S", "1500"))
+    done = {}
+    todo = list(range(len(args)))
+    for attempt in (1, 2):
+        if not todo:
+            break
+        with ctx.Pool(min(procs, len(todo)), maxtasksperchild=8) as pool:
+            it = pool.imap_unordered(_indexed_worker, [(i, args[i]) for i in todo], chunksize=1)
+            for _ in range(len(todo)):
+                try:
+                    i, res = it.next(stall)
+                except mp.TimeoutError:
+                    pool.terminate()
+                    break
+                done[i] = res
+        todo = [i for i in todo if i not in done]
+    for i in todo:
+        gi, (m, f, c, sd) = args[i]
+        done[i] = (gi, dict(case=c if isinstance(c, (str, int)) else json.dumps(c, sort_keys=True, default=str), fatal="no result within %.0f s in two attempts (worker stalled)" % stall, wall_s=stall))
+    return [done[i] for i in range(len(args))]
+
+
+def _indexed_worker(a):
+    i, rest = a
+    return i, _tagged_worker(rest)
+
+
+def _case_cost(case):
+    """rough replay cost of a case: its horizon if it has one"""
+    try:
+        c = json.loads(case) if isinstance(case, str) else case
+        if isinstance(c, dict):
+            inner = c.get("case") if isinstance(c.get("case"), dict) else c
+            return float(inner.get("N") or inner.get("NM") or inner.get("n") or 0)
+    except Exception:   # noqa
+        pass
+    return 0.0
 
 
 class Report:
@@ -151,6 +188,7 @@ class Report:
         tot = dict(cases=len(results), paths=0, completed=0, pruned_by_code_assertions=0, pruned_other=0, queries=0, solver_s=0.0, branches=0,
                    unsat=0, sat=0, unknown=0)
         obl = {}
+        pending = []
         for r in results:
             if r.get("fatal"):
                 self.inconclusive.append("%s case %s: %s" % (name, r.get("case"), r["fatal"][-1500:]))
@@ -172,7 +210,19 @@ class Report:
                 if oc.get("unknown"):
                     self.inconclusive.append("%s case %s obligation %s: solver unknown x%d" % (name, r["case"], on, oc["unknown"]))
             for cx in r.get("cex", []):
-                self._handle_cex(name, r["case"], cx, replay)
+                pending.append((_case_cost(r["case"]), len(pending), r["case"], cx))
+        # counterexamples are replayed on the real code cheapest case first (small horizons replay in seconds), within a wall-clock budget for the whole check
+        for _, _, case, cx in sorted(pending, key=lambda t: (t[0], t[1])):
+            spent = self.__dict__.setdefault("_replay_spent", 0.0)
+            limit = float(os.environ.get("VERIF_REPLAY_BUDGET_S", "300" if self.tier == "quick" else "1500"))
+            if spent > limit and not self.violations:
+                if not self.__dict__.get("_replay_budget_noted"):
+                    self._replay_budget_noted = True
+                    self.inconclusive.append("%s: replay budget of %.0f s used up without a counterexample reproducing on the real code; remaining counterexamples not replayed" % (name, limit))
+                continue
+            t0 = time.time()
+            self._handle_cex(name, case, cx, replay)
+            self._replay_spent = spent + (time.time() - t0)
         tot["solver_s"] = round(tot["solver_s"], 3)
         g["slowest_cases"] = sorted([(r.get("wall_s", 0), r.get("case")) for r in results], key=lambda x: -x[0])[:3]
         if os.environ.get("VERIF_TIMES"):
@@ -196,6 +246,13 @@ class Report:
         # that did not reproduce, further ones are recorded as inconclusive without running the real code again
         book = self.__dict__.setdefault("_replay_book", {})
         b = book.setdefault((group, cx["obligation"]), dict(hit=0, miss=0))
+        tot = book.setdefault("__total__", dict(miss=0))
+        if len(self.violations) >= 3 or tot["miss"] >= 40:
+            # three reproduced violations fix the verdict; 40 failed replays in one run are recorded once
+            if len(self.violations) < 3 and not tot.get("noted"):
+                tot["noted"] = True
+                self.inconclusive.append("more than 40 counterexamples did not reproduce on the real code; further ones are not replayed")
+            return
         if b["hit"] or b["miss"] >= 6:
             if not b["hit"]:
                 self.inconclusive.append("%s case %s obligation %s: counterexample not replayed (6 earlier ones of this obligation did not reproduce)" % (group, case, cx["obligation"]))
@@ -210,6 +267,7 @@ class Report:
             return
         if not rp.get("reproduced"):
             b["miss"] += 1
+            tot["miss"] += 1
             self.inconclusive.append("%s case %s obligation %s: solver counterexample did NOT reproduce on the real code (%s); model=%s" %
                                      (group, case, cx["obligation"], rp.get("what"), json.dumps(cx["model"])[:600]))
             return
